@@ -151,6 +151,54 @@ def reset_globals():
     tmo.settings.set_thermo(package('MIX').thermo)
 
 
+_warm = set()
+
+
+def warm_package(pid):
+    """Run every kind of equilibrium call once on a throw-away stream of the package so that numba
+    compiles its kernels (several seconds each, not cached on disk because they take functions as
+    arguments) OUTSIDE the per-step watchdog: a step that stalls is then a stall, not a compile."""
+    if pid in _warm:
+        return
+    _warm.add(pid)
+    pk = package(pid)
+    row = np.zeros(pk.n)
+    for j, k in enumerate(pk.vol[:3]):
+        row[k] = 1.0 + j
+    for k in pk.gas[:1] + pk.heavy[:1]:
+        row[k] = 0.1
+    T0 = 350.
+    with faults.disarmed(), warnings.catch_warnings():
+        warnings.simplefilter('ignore')
+        mix = pk.thermo.mixture
+        for kw in ({'T': T0, 'P': 101325.}, {'P': 101325., 'V': 0.5}, {'T': T0, 'V': 0.5}, {'P': 101325., 'H': None},
+                   {'P': 101325., 'S': None}, {'T': T0, 'H': None}, {'T': T0, 'S': None}, 'lle', 'sle', 'vlle'):
+            try:
+                s = tmo.MultiStream(None, phases=('g', 'l'), T=T0, P=101325., thermo=pk.thermo)
+                s.imol['l'] = row
+                if kw == 'lle':
+                    s.lle(T=320.)
+                elif kw == 'sle':
+                    s.sle(pk.ids[pk.vol[0]], T=300.)
+                elif kw == 'vlle':
+                    if pid == 'MIX':
+                        s.vlle(T0, 101325.)
+                else:
+                    kw = dict(kw)
+                    for key in ('H', 'S'):
+                        if key in kw:
+                            s.vle(T=T0, P=101325.)
+                            rows = [(p, dense(r)) for p, r in zip(s.phases, s.imol.data.rows)]
+                            kw[key] = float((mix.xH if key == 'H' else mix.xS)(rows, T0, 101325.))
+                    s.vle(**kw)
+            except Exception:
+                pass
+        try:
+            entropy_noise(pk)
+        except Exception:
+            pass
+
+
 # ====================================================================== independent thermodynamics
 # Nothing below calls a thermosteam solver.  Only Chemical.Psat, thermo.Gamma objects, the
 # LiquidFugacities/GasFugacities evaluators and mixture.xH/xS on dense rows are used.
@@ -592,6 +640,8 @@ class EqWorld(BaseWorld):
         self.calib = cfg.get('calib')     # calibration mode: residuals are recorded, not judged
         self.resid = {}
         self.n_baseline = 0
+        for pid in sorted({spec['pkg'] for spec in cfg['streams']}):
+            warm_package(pid)
         for spec in cfg['streams']:
             s = self._create(spec['pkg'], spec['phases'], spec['T'], spec['P'], spec['rows'], 1.0)
             self.streams[spec['name']] = s
@@ -1331,6 +1381,9 @@ class EqWorld(BaseWorld):
                           {'before': before.to_json(), 'after': after.to_json(), 'event': ev})
         if not np.all(after.rows >= -1e-12):
             i, k = np.argwhere(~(after.rows >= -1e-12))[0]
+            if LEVER_REGION in self.regions and self.lever_clip(ev, pk, after):
+                self.stats['region:' + LEVER_REGION] += 1
+                return
             self.fail('negative-flow',
                       f"{name}: {ev['op']} left {after.rows[i, k]!r} kmol/hr of {pk.ids[k]} in phase "
                       f"{after.phases[i]}",
@@ -1355,6 +1408,22 @@ class EqWorld(BaseWorld):
                     self.fail('locked-phase', f"{name}: {pk.lock[k]}-only {pk.ids[k]} has {after.row('g')[k]!r} "
                               f"kmol/hr in the gas after vle({ev['spec']})",
                               {'before': before.to_json(), 'after': after.to_json(), 'event': ev})
+
+    def lever_clip(self, ev, pk, after):
+        """Known finding LEVER_REGION (judged at the oracle): VLE._lever_rule accepts a split fraction up
+        to 1e-5 outside [0, 1], clips it, and writes liquid = total - vapour: the phase that should be
+        empty keeps entries of both signs that cancel (|sum| and each entry <= 1e-5 of the feed)."""
+        if ev.get('op') != 'vle' or ev.get('spec') not in ('Tx', 'Px', 'Ty', 'Py'):
+            return False
+        F = float(sum(after.lg()[k] for k in pk.vol))
+        if not F > 0:
+            return False
+        for ph in ('l', 'g'):
+            row = np.array([after.row(ph)[k] for k in pk.vol])
+            if np.any(row < -1e-12):
+                if not (abs(float(row.sum())) <= 2e-5 * F and float(np.max(np.abs(row))) <= 2e-5 * F):
+                    return False
+        return True
 
     # ------------------------------------------------------------ C04
     # Tolerance clauses are evaluated as (clause, residual, unit) triples; a clause holds when
@@ -1442,12 +1511,16 @@ class EqWorld(BaseWorld):
         cb = Comp(pk, before)
         detail = {'before': before.to_json(), 'after': after.to_json(), 'event': ev,
                   'kwargs': {k: (v if not isinstance(v, float) else float(v)) for k, v in kw.items()}}
+        # T / P clause: every stream composition with 1-5 volatile chemicals, wherever they sit
+        tot = before.totals()
+        if cb.clean and 1 <= sum(1 for k in pk.vol if tot[k] > 0.) <= 5:
+            self.stats['c04:exact_checked'] += 1
+            self.c04_exact(ev, name, after, detail)
         why = self.c04_in_domain(cb)
         if why:
             self.stats['c04:skip_' + why] += 1
             return
         self.stats['c04:checked'] += 1
-        self.c04_exact(ev, name, after, detail)
         recs = self.c04_residuals(ev, name, pk, before, after, kw)
         for r in recs:
             self.stats['c04:' + r['clause']] += 1
@@ -1901,30 +1974,21 @@ def _stored(world, ev, key):
         return False
 
 
-def _single_with_heavy(world, ev):
-    try:
-        c = Comp(world.pk(ev['stream']), take_snap(world.streams[ev['stream']]))
-        return c.N_eff == 1 and c.F_heavy > 0.
-    except Exception:
-        return False
-
-
 BASELINE_REGION = 'C04-fresh-baseline-miss'
+LEVER_REGION = 'C03-lever-rule-clip'
 
 REGIONS = {
     # judged at the oracle (EqWorld.baseline_defect), not at generation: the same call on a brand-new
     # stream built from the same observable state misses the same tolerance clause
     BASELINE_REGION: lambda w, ev: False,
+    # judged at the oracle (EqWorld.lever_clip)
+    LEVER_REGION: lambda w, ev: False,
     # VLE._set_TV_chemical stores Psat(T) in the stream's TEMPERATURE (vle.py:465)
     'C04-TV-single-volatile': lambda w, ev: (ev.get('op') == 'vle' and ev.get('spec') == 'TV'
                                              and _single_partitioning(w, ev)),
     # VLE._set_TH_chemical / _set_TS_chemical never store the specified T (vle.py:513, :589)
     'C04-THS-single-volatile': lambda w, ev: (ev.get('op') == 'vle' and ev.get('spec') in ('TH', 'TS')
                                               and _single_partitioning(w, ev) and not _stored(w, ev, 'T')),
-    # VLE._set_PS_chemical interpolates S linearly in the vapour fraction although the liquid row also
-    # holds an inert locked chemical (ideal-mixing term is not linear): S is reproduced only to ~1e-3 kJ/kg/K
-    'C04-PS-single-volatile-inert-liquid': lambda w, ev: (ev.get('op') == 'vle' and ev.get('spec') == 'PS'
-                                                          and _single_with_heavy(w, ev)),
     # VLE.set_Tx / set_Px / set_Ty / set_Py never store the specified T (P) (vle.py:622-644)
     'C04-xy-spec-not-stored': lambda w, ev: (ev.get('op') == 'vle' and ev.get('spec') in ('Tx', 'Px', 'Ty', 'Py')
                                              and not _stored(w, ev, ev['spec'][0])),
